@@ -226,7 +226,12 @@ func (s *Sorts) ZeroOf(t types.Type) string {
 	case *types.Struct:
 		si := s.StructOf(t)
 		if si.opaque {
-			return q("zero:" + si.key)
+			z := q("zero:" + si.key)
+			if s.done[z] == "" {
+				s.done[z] = "1"
+				s.decls = append(s.decls, fmt.Sprintf("(declare-const %s %s)", z, si.sort))
+			}
+			return z
 		}
 		var fs []string
 		for _, ft := range si.ftypes {
